@@ -98,36 +98,56 @@ def registered():
 
 
 def run(ids):
+    """Apply each seeded patch and run every registered check on it.  Default: in a scratch worktree of /repo's HEAD
+    (`./check --repo`), /repo itself untouched; with IN_REPO=1: `git -C /repo apply`, run, `git -C /repo checkout -- .`."""
+    import subprocess
     ids = ids or sorted(os.path.basename(d) for d in glob.glob(os.path.join(VERIF, "seeded", "*")) if os.path.isdir(d))
-    rc, out = sh("git status --porcelain", REPO)
-    if out.strip():
-        print("refusing: /repo has uncommitted changes")
-        return 2
+    in_repo = os.environ.get("IN_REPO") == "1"
+    if in_repo:
+        rc, out = sh("git status --porcelain", REPO)
+        if out.strip():
+            print("refusing: /repo has uncommitted changes")
+            return 2
+        tree = REPO
+    else:
+        tree = f"/tmp/seeded-run-{os.getpid()}"
+        sh(f"git worktree add -q --detach {tree} HEAD", REPO)
     pids = registered()
     extra = [p for p in os.environ.get("EXTRA_CHECKS", "").split(",") if p]
     pids = pids + [p for p in extra if p not in pids]
     table = {}
-    for sid in ids:
-        d = os.path.join(VERIF, "seeded", sid)
-        rc, out = apply_patch(os.path.join(d, "patch.diff"), REPO)
-        if rc:
-            table[sid] = "PATCH-DOES-NOT-APPLY"
-            sh("git reset -q --hard HEAD", REPO)
-            continue
-        hits = []
-        try:
-            for pid in pids:
-                rc, out = sh(f"./check {pid} --no-evidence", VERIF, env={"VERIF_QUIET": "1"})
-                keys = [l.split("rule ")[1].strip() for l in out.splitlines() if l.startswith(f"[{pid}] rule ")]
-                if rc == 1:
-                    hits.append(f"{pid}:" + ";".join(k.replace("  instance ", "::") for k in keys[:2]))
-                elif rc != 0:
-                    hits.append(f"{pid}:ANALYSIS-ERROR")
-        finally:
-            sh("git checkout -- .", REPO)
-        table[sid] = hits or "MISSED"
-        print(f"{sid:14s} {table[sid]}")
-    json.dump(table, open(os.path.join(VERIF, "seeded", "last_run.json"), "w"), indent=1)
+    try:
+        for sid in ids:
+            d = os.path.join(VERIF, "seeded", sid)
+            rc, out = apply_patch(os.path.join(d, "patch.diff"), tree)
+            if rc:
+                table[sid] = "PATCH-DOES-NOT-APPLY"
+                sh("git reset -q --hard HEAD", tree)
+                print(f"{sid:14s} {table[sid]}")
+                continue
+            hits = []
+            try:
+                procs = {pid: subprocess.Popen(f"./check {pid} --no-evidence" + ("" if in_repo else f" --repo {tree}"), shell=True, cwd=VERIF, text=True,
+                                               stdout=subprocess.PIPE, stderr=subprocess.STDOUT, env={**os.environ, "VERIF_QUIET": "1"}) for pid in pids}
+                for pid, pr in procs.items():
+                    out = pr.communicate()[0]
+                    rc = pr.returncode
+                    keys = [l.split("rule ")[1].strip() for l in out.splitlines() if l.startswith(f"[{pid}] rule ")]
+                    if rc == 1:
+                        hits.append(f"{pid}:" + ";".join(k.replace("  instance ", "::") for k in keys[:2]))
+                    elif rc != 0:
+                        hits.append(f"{pid}:ANALYSIS-ERROR")
+            finally:
+                sh("git checkout -- .", tree)
+            table[sid] = hits or "MISSED"
+            print(f"{sid:14s} {table[sid]}", flush=True)
+    finally:
+        if not in_repo:
+            sh(f"git worktree remove --force {tree}", REPO)
+    lr = os.path.join(VERIF, "seeded", "last_run.json")
+    merged = json.load(open(lr)) if os.path.exists(lr) else {}
+    merged.update(table)  # a partial run refreshes its own entries only
+    json.dump(merged, open(lr, "w"), indent=1, sort_keys=True)
     return 0
 
 
